@@ -64,6 +64,16 @@ func runC43(c *hl.Ctx) error {
 		c.Emit(c43Observe(b))
 		c.Count("corpus")
 	}
+	// sizes around and beyond 1 MiB (compressible, so the compressed form stays small): a decoder that bounds its output
+	// or buffers in fixed blocks shows up only here
+	for _, n := range []int{1<<20 - 1, 1 << 20, 1<<20 + 1, 3<<20 + 7} {
+		b := make([]byte, n)
+		for i := range b {
+			b[i] = byte('a' + (i/977)%7)
+		}
+		c.Emit(c43Observe(b))
+		c.Count("raw:megabyte")
+	}
 	n := c.Pick(4000, 60000)
 	for i := 0; i < n; i++ {
 		c.Emit(c43Observe(c43Gen(c, r)))
